@@ -150,6 +150,7 @@ void LVCalc(matrix *X,
   size_t i;
   size_t j;
   size_t loop;
+  int null_lv; /* 1 if no latent variable can be extracted (no covariance between X and Y left) */
   double mod_p_old;
   double dot_q;
   double dot_t;
@@ -208,6 +209,7 @@ void LVCalc(matrix *X,
   step = 0;
   #endif
   loop = 0;
+  null_lv = 0;
   while(1){
     #ifdef DEBUG
     printf("######### Step %u\n", (unsigned int)step);
@@ -217,6 +219,15 @@ void LVCalc(matrix *X,
     DVectorSet(w_, 0.f); /* Reset the w vector */
     DVectorMatrixDotProduct(X_, u_, w_);
     dot_u = DVectorDVectorDotProd(u_, u_);
+
+    /* A response without variance left (e.g. a constant y) or an X block
+     * with no covariance with u left (rank exhausted) define no further
+     * latent variable: the convergence criterion would be NaN forever.
+     */
+    if(dot_u == 0.f || DvectorModule(w_) == 0.f){
+      null_lv = 1;
+      break;
+    }
 
     for(i = 0; i < w_->size; i++){
       w_->data[i] /= dot_u;
@@ -290,7 +301,10 @@ void LVCalc(matrix *X,
         t_old->data[i] = t_->data[i];
     }
     else{
-      if(calcConvergence(t_, t_old) < PLSCONVERGENCE){
+      /* On a rank exhausted X block the iteration runs on rounding noise and
+       * can cycle forever without meeting the criterion: stop after PLSMAXITERATIONS.
+       */
+      if(calcConvergence(t_, t_old) < PLSCONVERGENCE || loop >= PLSMAXITERATIONS){
         break;
       }
       else{
@@ -301,6 +315,18 @@ void LVCalc(matrix *X,
     /* End step 8 */
   }
 
+  if(null_lv == 1){
+    /* Null latent variable: scores, loadings, weights and regression
+     * coefficient are zero and nothing is removed from X and Y.
+     */
+    DVectorSet(t_, 0.f);
+    DVectorSet(u_, 0.f);
+    DVectorSet(p_, 0.f);
+    DVectorSet(q_, 0.f);
+    DVectorSet(w_, 0.f);
+    (*bcoef) = 0.f;
+  }
+  else{
   /* Step 9 compute the loading vector for X: p' = t'X/t't  and y */
   DVectorMatrixDotProduct(X_, t_, p_);
 
@@ -352,6 +378,7 @@ void LVCalc(matrix *X,
       Y_->data[i][j] -= ((*bcoef) * t_->data[i] * q_->data[j]);
     }
   }
+  } /* end of the regular (non null) latent variable */
 
   MatrixCopy(X_, &X);
   MatrixCopy(Y_, &Y);
